@@ -75,6 +75,7 @@ func run(col *core.Collector, prop, tier, variant string, seed uint64, shard, ns
 	case "C03":
 		if variant == "plain" {
 			seq.RunProperty(col, prop, tier, seed, shard, nshards, replayDir)
+			seq.RunPersistExpired(col, tier, seed, shard, nshards, replayDir)
 		}
 		conc.RunC03(col, tier, variant, seed, shard, nshards, replayDir, out)
 	case "C11":
